@@ -71,6 +71,8 @@ impl Check for C01 {
         let (f, g) = (&c.f, &c.g);
         let want = f.glue(g);
         ex.workload_fp = crate::rng::mix(f.fingerprint(), g.fingerprint());
+        ex.probe_if(f.n() >= 64 || f.m() >= 64 || f.s.len() >= 64 || f.t.len() >= 64, "size_64_or_more");
+        ex.probe_if(f.n() >= 256 || f.m() >= 256 || f.s.len() >= 256 || f.t.len() >= 256, "size_256_or_more");
         let identifications = f.t.len();
         ex.nontrivial = want.is_some() && (f.n() + g.n() > 0) && (identifications > 0 || f.m() + g.m() > 0);
         // probes on the workload
